@@ -5,6 +5,8 @@ from mc import core, det, vnet, fe, sse, crashfs
 PROPERTY = 'C13'
 ENGINE = 'E4 exhaustive crash-point enumeration: the real client and server on the virtual network, one component killed before/after every file-system mutation of every persisting handler, restarted on the same directory'
 LEVEL = 'model_checking'
+DIRECTED_ADDITIONS = 'the CLI workload addressed by name, a second crash (either side) in the retry or any later command, SIGKILL replays'      # members added during the seeded-change campaign (DESIGN 7); counted under their own vacuity counters
+
 STEPS = ['create', 'genkey', 'encrypt', 'upload-config', 'upload-index', 'search']
 IN_SCOPE = {
     'server': ('handle_upload_config', 'handle_upload_encrypted_database'),
@@ -15,6 +17,12 @@ B_CREATED, B_CFG_UP, B_KEY, B_ENC, B_IDX_UP = 1, 2, 4, 8, 16
 
 
 def describe(tier):
+    d = _describe(tier)
+    d['rule'] = d['rule'] + ' Directed additions: ' + DIRECTED_ADDITIONS + '.'
+    return d
+
+
+def _describe(tier):
     return {
         'rule': 'history = the documented workflow create | genkey | encrypt | upload-config | upload-index | searches, every command run CLI-style by '
                 'a fresh client component against a live server component on the virtual network. A baseline run records every file-system '
